@@ -116,6 +116,7 @@ func runC18(r *Run) {
 		c18AfterFailure(r, h)
 		c18FailedReconnect(r, h)
 		c18ErrorDuringCut(r, h)
+		c18NotificationDuringMonitor(r, h)
 	}
 }
 
